@@ -249,6 +249,10 @@ pub trait Scenario {
     fn shrink(plan: &Self::Plan) -> Vec<Self::Plan>;
     /// Is the plan non-trivial by the rule stated in `rule()`?
     fn nontrivial(plan: &Self::Plan) -> bool;
+    /// Short label of the entry point a plan drives (used in abort / hang signatures).
+    fn label(_plan: &Self::Plan) -> String {
+        String::new()
+    }
     fn rule() -> String;
     fn assumptions() -> Vec<String>;
     fn components() -> serde_json::Value;
